@@ -15,7 +15,7 @@
     closure it emits (fcPartialApplyGo), so the statement is false without it (see [C01_compile_effectful_pap_refuted]). *)
 From Coq Require Import List ZArith String.
 From FoVerif Require Import Core.Common Core.Lib Core.MiniFo Core.MiniGo Core.Compile Core.GoRules Core.SimDefs
-  Core.CompileProof Core.CompileExamples Core.FuelMono Core.CompileMore.
+  Core.CompileProof Core.CompileExamples Core.FuelMono Core.CompileMore Core.WfCheck.
 Import ListNotations.
 
 (** The full statement of the property on the model (NOT provable: refuted below). *)
@@ -112,6 +112,12 @@ Theorem C01_effects_in_source_order : forall p, pap_args_pure p ->
   exists gvs, Gevals (gfuncs p) (gvars p) genv (compile_list k es) t gvs t' /\ Forall2 (vrel (ok p) (gfuncs p)) vs gvs.
 Proof. exact effects_in_source_order. Qed.
 Print Assumptions C01_effects_in_source_order.
+
+(** the oracle's answer to [C01 (fragment <prog>)] is sound: a program it accepts satisfies the hypotheses *)
+Theorem C01_fragment_check_sound : forall strict n p,
+  wfp_b strict (p_unions p) n p = true -> if strict then pap_args_pure p else wt p.
+Proof. intros strict n p H. destruct strict; exact (wfp_b_sound _ n p H). Qed.
+Print Assumptions C01_fragment_check_sound.
 
 (** non-vacuity: a program of the fragment that uses closures, a partial application in a pipe, slices with
     callbacks, a record, a union with a match, a string match, destructuring, interpolation, short-circuit
